@@ -161,7 +161,49 @@ func loadChecks() map[string]Check {
 	if err := json.Unmarshal(b, &m); err != nil {
 		fatal("checks.json: %v", err)
 	}
+	extra, _ := filepath.Glob(filepath.Join(verifDir, "checks.d", "*.json"))
+	sort.Strings(extra)
+	for _, f := range extra {
+		b, err := os.ReadFile(f)
+		if err != nil {
+			fatal("%v", err)
+		}
+		var m2 map[string]Check
+		if err := json.Unmarshal(b, &m2); err != nil {
+			fatal("%s: %v", f, err)
+		}
+		for k, v := range m2 {
+			m[k] = v
+		}
+	}
 	return m
+}
+
+// repoDir is the crewjam/saml tree the harness is built against: /repo, or a
+// scratch copy named by VERIF_REPO (used for mutant self-tests; never by the
+// registered manifest commands).
+func repoDir() string {
+	if d := os.Getenv("VERIF_REPO"); d != "" {
+		return d
+	}
+	return "/repo"
+}
+
+// modfileArgs returns the -modfile flag pointing the harness at repoDir().
+func modfileArgs(work string) []string {
+	if repoDir() == "/repo" {
+		return nil
+	}
+	b, err := os.ReadFile(filepath.Join(verifDir, "harness", "go.mod"))
+	if err != nil {
+		fatal("%v", err)
+	}
+	mod := strings.Replace(string(b), "=> /repo", "=> "+repoDir(), 1)
+	p := filepath.Join(work, "alt.mod")
+	os.WriteFile(p, []byte(mod), 0o644)
+	sum, _ := os.ReadFile(filepath.Join(repoDir(), "go.sum"))
+	os.WriteFile(filepath.Join(work, "alt.sum"), sum, 0o644)
+	return []string{"-modfile=" + p}
 }
 
 func fatal(f string, a ...any) {
@@ -218,6 +260,10 @@ func run(prop, tier string) int {
 		}
 	}
 	evPath := filepath.Join(verifDir, "evidence", prop+".json")
+	if repoDir() != "/repo" {
+		// scratch runs (mutant self-tests) never touch the committed evidence
+		evPath = filepath.Join(verifDir, ".work", "alt-evidence", sanitize(repoDir()), prop+".json")
+	}
 	os.MkdirAll(filepath.Dir(evPath), 0o755)
 
 	var (
@@ -469,8 +515,15 @@ func loadKnown() []KnownFinding {
 	return f.Findings
 }
 
+func replaysDir(prop string) string {
+	if repoDir() != "/repo" {
+		return filepath.Join(verifDir, ".work", "alt-replays", sanitize(repoDir()), prop)
+	}
+	return filepath.Join(verifDir, "replays", prop)
+}
+
 func saveReplay(prop, name string, v any) string {
-	dir := filepath.Join(verifDir, "replays", prop)
+	dir := replaysDir(prop)
 	os.MkdirAll(dir, 0o755)
 	p := filepath.Join(dir, sanitize(name)+".json")
 	b, _ := json.MarshalIndent(v, "", " ")
@@ -483,7 +536,7 @@ func copyToReplays(prop, src string) string {
 	if err != nil {
 		return ""
 	}
-	dir := filepath.Join(verifDir, "replays", prop)
+	dir := replaysDir(prop)
 	os.MkdirAll(dir, 0o755)
 	p := filepath.Join(dir, filepath.Base(src))
 	os.WriteFile(p, b, 0o644)
@@ -690,6 +743,7 @@ func runGo(work, prop, tier string, idx int, ph Phase) (HResult, string, error) 
 	if ph.Race {
 		args = append(args, "-race")
 	}
+	args = append(args, modfileArgs(work)...)
 	args = append(args, ".")
 	cmd := exec.Command("go", args...)
 	cmd.Dir = filepath.Join(verifDir, "harness")
@@ -699,8 +753,9 @@ func runGo(work, prop, tier string, idx int, ph Phase) (HResult, string, error) 
 		"VERIF_TIER":    tier,
 		"VERIF_PROP":    prop,
 		"VERIF_SEED":    strconv.Itoa(seed()),
-		"VERIF_REPLAYS": filepath.Join(verifDir, "replays", prop),
+		"VERIF_REPLAYS": replaysDir(prop),
 		"VERIF_DIR":     verifDir,
+		"VERIF_REPO":    repoDir(),
 	}
 	for k, v := range ph.Env {
 		env[k] = v
